@@ -694,6 +694,9 @@ func (rp *replayer) run(h HarnessSpec, replayFile string, expectHang bool) repla
 	}
 	cmd := exec.Command("timeout", "-s", "QUIT", to, bin, "-test.run", "^TestVerifReplay$", "-test.count=1", "-test.timeout=60s")
 	cmd.Dir = filepath.Join(rp.repo, h.Pkg)
+	if st, err := os.Stat(cmd.Dir); err != nil || !st.IsDir() {
+		cmd.Dir = rp.repo // overlay-only package
+	}
 	cmd.Env = append(os.Environ(), "VERIF_REPLAY="+replayFile, "VERIF_HARNESS="+h.Func, "GOTRACEBACK=all")
 	// bound memory: a counterexample for the allocation obligation must not take the machine down
 	shell := fmt.Sprintf("ulimit -v 6000000; exec \"$@\"")
